@@ -207,6 +207,8 @@ def c12(ctx):
             return ("panic:%s:%s" % (i["mut"], i["m"]), "decryption panicked: %s (%s)" % (o["panic"], i))
         if o["res"] == "other-plaintext":
             return ("other-plaintext:" + tag, "decryption returned a different plaintext: %s" % i)
+        if o["res"] in ("ciphertext-modified", "second-attempt-differs"):
+            return (o["res"] + ":" + tag, "decryption is not a function of (key, context, ciphertext): %s (%s)" % (o["res"], i))
         if e["ok"] and o["res"] != "ok":
             return ("roundtrip:" + i["m"], "decrypting an unmodified ciphertext with the right key and context failed: %s" % i)
         if not e["ok"] and o["res"] == "ok":
@@ -558,6 +560,12 @@ def c26(ctx):
     # the link itself: the real session's executeLink over an in-memory data channel (hook VerifExecuteLink)
     def judge_link(c, o):
         i, e = c["in"], c["out"]
+        if i["kind"] == "roles":
+            if o["err"]:
+                raise vlib.Infra("webrtc roles: %s" % o["err"])
+            if o["offerers"] != e["offerers"]:
+                return ("roles:%s" % ("both" if o["offerers"] == 2 else "none"), "the two ends of one session took %d offerer roles under configuration %s (exactly one expected)" % (o["offerers"], i))
+            return None
         if (o["links"] > 0) != e["link"]:
             return ("link:%s:%s" % ("accepted" if o["links"] else "refused", i["role"] + ":" + i["auth"]),
                     "local %s, other end authenticates as the %s peer: %d link(s) established, spec says %s" % (i["role"], i["auth"], o["links"], e["link"]))
